@@ -30,7 +30,7 @@ ANCHORS = [
 ]
 REQUIRED = ["ideal_judged", "l2_judged", "regime:pilot-limited-below-transition", "regime:power-limited-below-transition",
             "regime:crossing", "regime:rampdown", "regime:pilot-below-envelope-start-in-rampdown", "regime:full",
-            "regime:zero-pilot", "reference_crosschecks", "reset_checks", "reset_after_explicit_reset_checks", "split_checks"]
+            "regime:zero-pilot", "reference_crosschecks", "reset_checks", "reset_after_explicit_reset_checks", "split_checks", "same_object_calls_judged"]
 BUDGET_S = {"quick": 200, "thorough": 2400}
 
 
@@ -143,6 +143,36 @@ def run_case(case, obs):
         if not (abs(rs * V / 1000.0 * Tm / 60.0 - (cs - c0)) <= tol):
             obs.violate("two_stage_rate_vs_energy", f"stepwise: rate {rs!r} inconsistent with charge gained {cs - c0!r}", **wit)
         _reset_checks(obs, bs, c0, cap, wit)
+    # ---------------- one battery OBJECT charged again and again with pilot, voltage and period changing from call to call
+    # (grid values, so that products pilot x voltage x period coincide bit for bit between different periods): every call is
+    # judged against the law from the state the object was in before that call
+    for calc_obj in range(3):
+        cap = rng.choice([8, 40, 75])
+        pmax = rng.choice([3.3, 7, 11])
+        ts = rng.choice([0.5, 0.8, 0.9])
+        b = _mk(cap, cap * rng.uniform(0.3, 0.9), pmax, ts)
+        bi = Battery(cap, cap * rng.uniform(0.3, 0.9), pmax)
+        for j in range(24):
+            pj, Vj, Tj = rng.choice([8, 16, 32, 64, 4]), rng.choice([104, 208, 416]), rng.choice([2.5, 5, 10, 20, 1.25])
+            c_before = battery_state(b)[0]
+            r = b.charge(pj, Vj, Tj)
+            c_after = battery_state(b)[0]
+            ref = oracles.l2_ref(cap, c_before, pmax, ts, pj, Vj, Tj)
+            obs.ev("same_object_calls_judged")
+            if not abs(c_after - ref) <= 1e-9 * max(1.0, cap):
+                obs.violate("two_stage_law", f"same battery object, call {j} with (pilot, V, period) = ({pj}, {Vj}, {Tj}) from charge "
+                            f"{c_before!r}: stored charge {c_after!r}, law gives {ref!r}", capacity=cap, max_power=pmax, tsoc=ts,
+                            pilot=pj, voltage=Vj, period=Tj, init=c_before, same_object=True)
+                break
+            ci = battery_state(bi)[0]
+            ri = bi.charge(pj, Vj, Tj)
+            er, ec = oracles.ideal_ref(cap, ci, pmax, pj, Vj, Tj)
+            if not abs(ri - er) <= 1e-9 * max(1.0, abs(er)):
+                obs.violate("ideal_law", f"same battery object, call {j}: rate {ri!r}, law gives {er!r}", capacity=cap, max_power=pmax,
+                            pilot=pj, voltage=Vj, period=Tj, init=ci, same_object=True)
+                break
+            if c_after >= cap * (1 - 1e-9) and rng.random() < 0.5:
+                b.reset(cap * rng.uniform(0.3, 0.8))
     obs.evals = case["n"]
     obs.sample = {"batch": case["n"], "last": wit, "last_regime": reg}
 
